@@ -247,6 +247,26 @@ func (p *P) mCall(names ...string) M {
 		if cc == nil {
 			return false
 		}
+		switch in.(type) {
+		case *ssa.Go, *ssa.Defer:
+			return false // not executed here: use mCallD when a deferred call is an acceptable discharge
+		}
+		return set[p.calleeName(cc)]
+	}}
+}
+
+// mCallD is mCall that also accepts `defer f()` (the call then runs at every exit after this point):
+// suitable as a discharge event of must-pass-through queries, not for ordering.
+func (p *P) mCallD(names ...string) M {
+	set := map[string]bool{}
+	for _, n := range names {
+		set[n] = true
+	}
+	return M{ID: "callD:" + strings.Join(names, ","), F: func(in ssa.Instruction) bool {
+		cc := callCommon(in)
+		if cc == nil {
+			return false
+		}
 		if _, isGo := in.(*ssa.Go); isGo {
 			return false
 		}
@@ -1050,4 +1070,129 @@ func edgeKnownNonNil(b *ssa.BasicBlock, i int, v ssa.Value) bool {
 	}
 	isV := func(x ssa.Value) bool { return x == v }
 	return relOn(ifi.Cond, i == 0, isV, isNilConst) == "!="
+}
+
+// ---------------------------------------------------------------------------------------------
+// path-sensitive search (small functions only): carries the outcome of branch conditions along the
+// path and refuses edges that contradict an earlier outcome of the same (structurally equal) test.
+
+type pathOpts struct {
+	Discharge func(in ssa.Instruction) bool      // path is fine once it passes such an instruction
+	Bad       func(in ssa.Instruction) bool      // reaching such an instruction undischarged is a violation (default: any Return)
+	EdgeOK    func(b *ssa.BasicBlock, i int) bool // false prunes the edge (e.g. "nothing to dispose on this edge")
+	BadReturn func(ret *ssa.Return, pred *ssa.BasicBlock) bool
+}
+
+func condKey(v ssa.Value) (string, bool) {
+	c, neg := stripNot(v)
+	switch x := c.(type) {
+	case *ssa.BinOp:
+		kx, ky := valKey(x.X), valKey(x.Y)
+		if kx == "" || ky == "" {
+			return "", false
+		}
+		// normalise != to == with flipped polarity
+		switch x.Op {
+		case token.EQL:
+			return kx + "==" + ky, neg
+		case token.NEQ:
+			return kx + "==" + ky, !neg
+		}
+		return kx + x.Op.String() + ky, neg
+	}
+	k := valKey(c)
+	return k, neg
+}
+
+func valKey(v ssa.Value) string {
+	switch x := v.(type) {
+	case *ssa.Const:
+		return "const:" + x.String()
+	case nil:
+		return ""
+	}
+	return v.Name() + "@" + fmt.Sprintf("%p", v)
+}
+
+// findBadPath returns a path (as blocks) from a start point to a Bad instruction that passes no
+// Discharge instruction and is consistent in its branch outcomes, or nil.
+func (p *P) findBadPath(fn *ssa.Function, starts []Point, o pathOpts) (bool, PathRes) {
+	type state struct {
+		b   *ssa.BasicBlock
+		env string
+	}
+	seen := map[state]bool{}
+	var path []*ssa.BasicBlock
+	var res PathRes
+	res.OK = true
+	envStr := func(env map[string]bool) string {
+		var ks []string
+		for k, v := range env {
+			ks = append(ks, fmt.Sprintf("%s=%v", k, v))
+		}
+		sort.Strings(ks)
+		return strings.Join(ks, ";")
+	}
+	var walk func(b *ssa.BasicBlock, from int, pred *ssa.BasicBlock, env map[string]bool) bool
+	walk = func(b *ssa.BasicBlock, from int, pred *ssa.BasicBlock, env map[string]bool) bool {
+		path = append(path, b)
+		defer func() { path = path[:len(path)-1] }()
+		for i := from; i < len(b.Instrs); i++ {
+			in := b.Instrs[i]
+			if o.Discharge != nil && o.Discharge(in) {
+				return true
+			}
+			isBad := false
+			if ret, ok := in.(*ssa.Return); ok {
+				if o.Bad == nil && (o.BadReturn == nil || o.BadReturn(ret, pred)) {
+					isBad = true
+				} else if o.Bad != nil && o.Bad(in) {
+					isBad = true
+				} else {
+					return true
+				}
+			} else if o.Bad != nil && o.Bad(in) {
+				isBad = true
+			}
+			if isBad {
+				res = PathRes{OK: false, Exit: in, Path: append([]*ssa.BasicBlock{}, path...)}
+				return false
+			}
+		}
+		ifi := blockIf(b)
+		for i, s := range b.Succs {
+			if o.EdgeOK != nil && !o.EdgeOK(b, i) {
+				continue
+			}
+			nenv := env
+			if ifi != nil && len(b.Succs) == 2 {
+				if k, neg := condKey(ifi.Cond); k != "" {
+					truth := (i == 0) != neg
+					if old, ok := env[k]; ok && old != truth {
+						continue // contradicts an earlier outcome of the same test
+					}
+					nenv = map[string]bool{}
+					for kk, vv := range env {
+						nenv[kk] = vv
+					}
+					nenv[k] = truth
+				}
+			}
+			st := state{s, envStr(nenv)}
+			if seen[st] {
+				continue
+			}
+			seen[st] = true
+			if !walk(s, 0, b, nenv) {
+				return false
+			}
+		}
+		return true
+	}
+	for _, st := range starts {
+		if !walk(st.B, st.Idx+1, nil, map[string]bool{}) {
+			return false, res
+		}
+	}
+	return true, res
 }
